@@ -169,6 +169,19 @@ def run_impl(p):
                 m = ra.to_numpy_array()
                 return RaggedArray.from_numpy_array(m)
             o["numpy_roundtrip"] = guarded(nprt)
+            def nprt_layouts():
+                # the same matrix in other memory layouts (Fortran order, a transposed view of its transpose, every
+                # second row of a taller matrix, read-only): from_numpy_array must read it by (row, column), not by memory
+                m = ra.to_numpy_array()
+                tall = np.repeat(m, 2, axis=0)
+                ro = m.copy(); ro.setflags(write=False)
+                outs = [RaggedArray.from_numpy_array(x) for x in (np.asfortranarray(m), m.T.copy().T, tall[::2], ro)]
+                first = outs[0]
+                if not all(np.asarray(x.ravel()).tobytes() == np.asarray(first.ravel()).tobytes() and list(x.lengths) == list(first.lengths)
+                           and x.dtype == first.dtype for x in outs):
+                    raise AssertionError("from_numpy_array depends on the memory layout of its argument")
+                return first
+            o["numpy_roundtrip_layouts"] = guarded(nprt_layouts)
             return o
         return guarded(f)
     if p["kind"] == "flat":
@@ -254,6 +267,7 @@ def oracle(p):
             o["numpy_roundtrip"] = o["tolist"]
         else:
             o["numpy_roundtrip"] = refuse()
+        o["numpy_roundtrip_layouts"] = o["numpy_roundtrip"]
     return o
 
 
